@@ -141,6 +141,14 @@ func (s *Spec) Consensus(e *valfx.Env, identifier []byte) *specqbft.SignedMessag
 		return b
 	}
 	switch s.Just {
+	case "rc-quorum": // what an honest leader attaches in round > 1: a quorum of (unprepared) round changes for this round
+		v := e.Vals[s.Val%len(e.Vals)]
+		for i := 0; i < int(v.Share.Quorum); i++ {
+			j := &specqbft.SignedMessage{Signature: sig("ok", 0x22), Signers: []spectypes.OperatorID{v.Share.Committee[i].OperatorID},
+				Message: specqbft.Message{MsgType: specqbft.RoundChangeMsgType, Height: m.Message.Height, Round: m.Message.Round, Identifier: identifier}}
+			b, _ := j.Encode()
+			m.Message.RoundChangeJustification = append(m.Message.RoundChangeJustification, b)
+		}
 	case "garbage":
 		m.Message.RoundChangeJustification = [][]byte{{1, 2, 3}}
 		m.Message.PrepareJustification = [][]byte{{0xff}}
